@@ -98,6 +98,8 @@ QUICK = [
       note='a grandparent inserted before its grandchild class becomes symmetric: the parent class inherits the symmetry and ITS users must be re-canonicalised too (re-insertion must find the node)'),
     T('B20', 'Lb', 2, [add(u(k(0, 1))), add(u(j(1, 0))), union(u(k(0, 1)), u(j(1, 0))), add(j(0, 1)), union(k(0, 1), j(0, 1)), add(u(k(1, 0))), readd(u(j(0, 1))), add(app(u(k(0, 1)), u(k(1, 0))))], distinct=[[0, 1]],
       note='u(k(x,y)) = u(j(y,x)), then k(x,y) = j(x,y): the two nodes of the parent class collide with exchanged slots - the class gains a symmetry by congruence within itself'),
+    T('B21', 'Lb', 4, [add(t3(0, 1, 2)), add(u(t3(1, 2, 3))), union(t3(0, 1, 2), u(t3(1, 2, 3))), readd(t3(0, 1, 2)), add(t3(3, 3, 3))], distinct=[[0, 1, 2, 3]],
+      note='q(x,y,z) = u(q(y,z,w)): a self-referential equation with shifted slots - every slot becomes redundant, one after the other, through the class own node (cascading shrink)'),
 ]
 
 
